@@ -149,14 +149,15 @@ class Agg:
 
 
 RULES = {
-    "C12": "Each evaluation is one seeded history of 2-30 operations (parse / standalone lex / generate) on long-lived CParser, CLexer and CGenerator objects, with input faults (truncation, illegal fragment, bracket damage, failing snippets), asynchronous aborts at token or line granularity, lowered recursion limits and abandoned lexers; every non-aborted operation is compared with the same operation alone in a pristine process and with a brand-new instance in the used process. A case is the digest of (operations, texts, file names, fault plan); it is non-trivial when at least one compared operation follows, on the same object, an operation that failed, was aborted or (generator) emitted a nested construct.",
-    "C13": "Each evaluation is one seeded run of 2-4 actors (parsers through the scheduling lexer, parse->generate->reparse chains, generators, NodeVisitor instances, standalone lexers) interleaved by the baton scheduler at token or line granularity under a drawn policy, with optional crash / stall of one actor; every actor's outcomes and token logs are compared with its script alone in a pristine process and leak witnesses are searched. A case is the digest of (mode, scripts, fault plan, executed schedule); it is non-trivial when at least two actors were pre-empted strictly inside an operation and their programs use a common name of the clashing alphabet.",
+    "C12": "Each evaluation is one seeded history of 2-30 operations (parse / parse_file through a fake file system and cpp / standalone lex / generate with CGenerator and user-style subclasses) on long-lived CParser, CLexer and CGenerator objects, with input faults (truncation, illegal fragment, bracket damage, failing snippets), asynchronous aborts at token or line granularity, I/O faults (open / decode error, short read, cpp missing or failing), lowered recursion limits and abandoned lexers; every non-aborted operation is compared with the same operation alone in a pristine process and with a brand-new instance in the used process. A case is the digest of (operations, texts, file names, fault plan); it is non-trivial when at least one compared operation follows, on the same object, an operation that failed, was aborted or (generator) emitted a nested construct.",
+    "C13": "Each evaluation is one seeded run of 2-4 actors (parsers through the scheduling lexer, parse->generate->reparse chains, parse_file, generators and generator subclasses, NodeVisitor class hierarchies, standalone lexers) interleaved by the baton scheduler at token or line granularity under a drawn policy, with optional crash / stall of one actor; every actor's outcomes and token logs are compared with its script alone in a pristine process and leak witnesses are searched. A case is the digest of (mode, scripts, fault plan, executed schedule); it is non-trivial when at least two actors were pre-empted strictly inside an operation and their programs use a common name of the clashing alphabet.",
 }
 
 COMPONENTS = {
-    "real_code": ["pycparser/c_parser.py", "pycparser/c_lexer.py", "pycparser/c_ast.py", "pycparser/c_generator.py", "pycparser/ast_transforms.py (all from the working tree given by --repo)"],
-    "simulator_owned": ["baton scheduler (sim/engine.py)", "delegating CLexer subclass injected through the public lexer= parameter", "sys.settrace line hook", "fault plans", "pristine fork per run and per baseline"],
-    "not_exercised": ["pycparser/__init__.py parse_file / preprocess_file (cpp subprocess)", "pycparser/_ast_gen.py"],
+    "real_code": ["pycparser/c_parser.py", "pycparser/c_lexer.py", "pycparser/c_ast.py", "pycparser/c_generator.py", "pycparser/ast_transforms.py", "pycparser/__init__.py parse_file / preprocess_file (all from the working tree given by --repo)"],
+    "simulator_owned": ["baton scheduler (sim/engine.py)", "delegating CLexer subclass injected through the public lexer= parameter", "sys.settrace line hook", "fault plans", "fresh module set per run and per baseline (fresh forked process for confirmation, replay and the determinism self-test)"],
+    "stubbed": ["file system behind parse_file: fake `io.open` in the package namespace (virtual file per actor; open error, decode error, short read)", "the cpp subprocess behind preprocess_file: fake `check_output` (adds line markers; missing binary, non-zero exit, short output)"],
+    "not_exercised": ["the real cpp binary", "pycparser/_ast_gen.py"],
 }
 
 
